@@ -48,13 +48,31 @@
      real data    acorr_real_path levinson_real_path aryule_real_path arburg_real_path: the model at a real field R and at F
                   commute with any *-homomorphism R -> F ("real samples declared complex give the same parameters");
                   aryule_real_parameters arburg_real_parameters: real data => real AR / reflection coefficients
+     MUSIC / EV   (Model/Eigen.v; numpy.linalg.svd is an oracle: (S, Vh) universally quantified, constrained by C17's [svd_spec] where stated)
+                  eigen_fb_modulation eigen_fb_rowphase_unit eigen_fb_conj: FB(x . phi) = D_rows FB(x) D_cols (forward row r: phi(r+P-1), conjugated
+                  backward row r: phi(-(r+1)), column k: phi(-k); all unimodular; the 100-row cap included), FB(conj x) = conj FB(x);
+                  eigen_shift eigen_mirror pmusic_pev_shift pmusic_pev_mirror: for EVERY (S, Vh) (no hypothesis) the model run on the transformed data with
+                  (S, Vh . conj phi) resp. (S, conj Vh) returns the pseudo-spectrum rolled by m bins resp. mirrored (eigen(): centred layout, mirror about the
+                  centre bin; pmusic / pev on complex data: two-sided layout incl. scale()), the same singular values, the same exception -- every NSIG rule
+                  (explicit / threshold / AIC-MDL index), method, EV floor, NFFT >= 1;
+                  eigen_svd_modulation eigen_svd_conj: (S, Vh) meets the SVD specification for FB(x) => those pairs meet it for the transformed matrix;
+                  singular_values_unique noise_form_unique music_ev_svd_independent pmusic_pev_svd_independent: two pairs meeting the specification for the
+                  SAME matrix have the same singular values and, when the noise subspace is determined (S_(NSIG-1) > S_NSIG, or NSIG = 0, or NSIG >= P),
+                  the same MUSIC and EV denominators at every bin and the same eigen / pmusic / pev output;
+                  singular_values_shift singular_values_conj eigen_shift_any_svd eigen_mirror_any_svd pmusic_pev_shift_any_svd pmusic_pev_mirror_any_svd:
+                  ANY pair meeting the specification for FB(x), ANY pair meeting it for the transformed matrix, gap at the chosen NSIG => equal singular values,
+                  output rolled by m bins / mirrored.  What this does NOT claim: that numpy's floating-point svd meets the specification (C17's correspondence
+                  checks it per run), and anything when S_(NSIG-1) = S_NSIG (the noise subspace is then a choice of the SVD routine; only the first four
+                  theorems, about the exhibited pair, apply).  The AIC/MDL argmin is one natural number on both sides (S is equal by theorem).
+                  Over the generated table (tools/props/_c04_theorems.v.in): class_rotation_subspace class_mirror_subspace routing_subspace.
    Hypotheses that are not decoration: conjugation / real-path theorems divide, so they assume the quantities the code divides
    by are nonzero (N, N-k, mean power for 'coeff', the error powers / Burg denominators of the executed stages) -- conj(a/0)
    is not determined in an abstract field and the code produces inf/nan there.
 
    NOT PROVED (search on the implementation only): that arcovar_marple / scipy lstsq inside arma_estimate are equivariant (they are
-   the oracles [lsm], [lsq] of the model: hypothesis of the theorems, proved for the executable solver), pmusic / pev, real-data correlogram
-   (two-sided to one-sided conversion), pdaniell; arma2psd with norm=True.  scipy.linalg.lstsq is represented by the
+   the oracles [lsm], [lsq] of the model: hypothesis of the theorems, proved for the executable solver); for pmusic / pev: that numpy's svd meets
+   [svd_spec], and the degenerate case S_(NSIG-1) = S_NSIG; real-data correlogram (twosided_2_onesided: bins 0 and NFFT/2 are not doubled -- not a
+   clause of the statement), pdaniell (decimating smoother: no rotation by m bins on its output grid); arma2psd with norm=True.  scipy.linalg.lstsq is represented by the
    executable solver ls_solve (any solver of the normal equations agrees with it on full-rank data: C09). *)
 From Coq Require Import String.
 Require Import Spectrum.Model.ArmaEst Spectrum.Model.ArmaCall.   (* before Yule / Arma2psd: their aryule, arma2psd stay the unqualified ones *)
